@@ -31,7 +31,7 @@ MANIFEST = {
     "text": "Inverse and controlled are decided as matrix identities for all parameters on circuits that mix every gate kind (self-adjoint, parametric, wrapped, custom) with idle and non-adjacent qubits and for every control position; the generator contracts are decided on symbolic parameter rows for unordered / duplicated qubit collections. Circuit shapes are a fixed representative family (bound stated).",
     "note": "Trusted: exact domain, shadow execution. Bounds: circuits of <= 5 operations on <= 3 (+1 control) qubits. CPython set iteration order assumed for 'i-th row on qubit i' (checked natively).",
 }
-TRUSTED = ["vfw/trig.py exact domain", "shadow execution of the real module text", "CPython iterates set(range(n)) in ascending order (assumed, exercised natively)"]
+TRUSTED = ["props/C08ancilla.py: circuit + operation by the contract of _append_operation (C01.append_operation.all_lengths.contract)", "vfw/trig.py exact domain", "shadow execution of the real module text", "CPython iterates set(range(n)) in ascending order (assumed, exercised natively)"]
 ASSUMPTIONS = ["bounded to the listed circuit family (complete in gate parameters and custom matrix entries)", "machine arithmetic treated as mathematical in the symbolic part"]
 EXTRA = {"explanation": "matrix / structural identities generated from the current text of _circuit.py, _gates.py, _generators.py via Engine M"}
 
